@@ -129,8 +129,13 @@ func cmdReplayRule(args []string) error {
 			}
 			rule, perr := rules.NewNetworkRule(text, 1)
 			if perr != nil {
+				// the row's rule has a meaning in the specification (Rule!Match on every request): a parser that refuses
+				// its text loses the rule
 				rejected++
-				fmt.Printf("REJECTED %q: %v\n", text, perr)
+				mism++
+				rq := reqs[0]
+				out.write(ruleMismatch{Fam: rec.Fam, RuleText: text, Variant: v, Request: "(rejected by NewNetworkRule: " + perr.Error() + ")",
+					Expected: true, Got: false, Cause: "rejected-valid-rule", Rule: rec.Rule, Req: &rq})
 				continue
 			}
 			for k := range reqs {
